@@ -9,6 +9,7 @@ import (
 	"verifsim/core"
 	"verifsim/harness"
 
+	"github.com/MixinNetwork/mixin/common"
 	"github.com/MixinNetwork/mixin/crypto"
 )
 
@@ -72,6 +73,20 @@ func (m *c18Mon) check(final bool) {
 			if hash != fr.Hash || start != fr.Start {
 				c.Violate("C18", "live-final-round-hash", fmt.Sprintf("n%d chain %s round %d: live hash %s start %d, recomputed %s start %d over %d snapshots", n.Idx, chain.String()[:8], fr.Number, fr.Hash.String()[:8], fr.Start, hash.String()[:8], start, len(snaps)), n)
 				return
+			}
+			// what the live node would compute if it closed its current round now must be the function of
+			// the snapshots that round holds right now (not of an earlier, smaller set)
+			if live := ch.SimLiveRoundAsFinal(); live != nil {
+				var cur []*common.SnapshotWithTopologicalOrder
+				for _, s := range ch.SimCacheSnapshots() {
+					cur = append(cur, &common.SnapshotWithTopologicalOrder{Snapshot: s})
+				}
+				start, hash := roundHashRef(chain, ch.State.CacheRound.Number, cur)
+				m.checked++
+				if hash != live.Hash || start != live.Start {
+					c.Violate("C18", "live-round-hash-not-a-function-of-its-snapshots", fmt.Sprintf("n%d chain %s live round %d holds %d snapshots, closing it now gives hash %s start %d, the commitment over those snapshots is %s start %d", n.Idx, chain.String()[:8], ch.State.CacheRound.Number, len(cur), live.Hash.String()[:8], live.Start, hash.String()[:8], start), n)
+					return
+				}
 			}
 			if ch.State.CacheRound.Number < minHead {
 				minHead = ch.State.CacheRound.Number
@@ -169,8 +184,8 @@ func c18Gen(rng *core.Rng, tier string) *harness.Plan {
 	for i := 0; i < 1+rng.IntN(3); i++ {
 		p.Ops = append(p.Ops, harness.Op{At: int64(rng.Dur(5*time.Second, dur) / time.Microsecond), Kind: "crash", N: rng.IntN(9), A: int64(300 + rng.IntN(5000))})
 	}
-	for i := 0; i < 2; i++ {
-		p.Ops = append(p.Ops, harness.Op{At: int64(rng.Dur(10*time.Second, dur) / time.Microsecond), Kind: "checkpoint"})
+	for i := 0; i < 12; i++ {
+		p.Ops = append(p.Ops, harness.Op{At: int64(rng.Dur(4*time.Second, dur) / time.Microsecond), Kind: "checkpoint"})
 	}
 	sortOps(p)
 	return p
